@@ -18,6 +18,7 @@ def runCase (c : Case) : IO Unit := do
   | "dict" => runDict c (modelFor c) emit
   | "vbyte" => runVByte c emit
   | "logseq" => runLogSeq c emit
+  | "pool" => runPool c emit
   | _ => emit 1 s!"ERR unknown-stream {c.stream}"
 
 partial def loop (h : IO.FS.Stream) (cur : Option Case) : IO Unit := do
